@@ -325,6 +325,38 @@ def _w_header_add(self, op):
     return core.call(h.add, op["tag"], op["value"])
 
 
+def _w_hold(self, op):
+    """the caller keeps a handle to a line (a placeholder, or the line object it added last)"""
+    if op.get("what") == "last_obj":
+        self.held = self.last_line_obj
+    else:
+        l = core.call(self.gfa.line, op["id"])
+        self.held = l.value if l.ok else None
+        if self.held is None:
+            s = core.call(self.gfa.segment, op["id"])
+            self.held = s.value if s.ok else None
+    return core.Outcome(True, "held" if self.held is not None else "skipped")
+
+
+def _w_held_call(self, op):
+    """a call through a handle kept earlier: the line may have been replaced in the meantime"""
+    h = getattr(self, "held", None)
+    if h is None:
+        self.st.count("op.skipped")
+        return core.Outcome(True, "skipped")
+    how = op["how"]
+    if how == "rm":
+        return core.call(self.gfa.rm, h)
+    if how == "disconnect":
+        return core.call(h.disconnect)
+
+    def ren():
+        h.name = op.get("new", "zz9")
+    return core.call(ren)
+
+
+World.do_hold = _w_hold
+World.do_held_call = _w_held_call
 World.do_header_add = _w_header_add
 World.do_set_field = _w_set_field
 World.do_readd_connected = _w_readd_connected
